@@ -364,6 +364,55 @@ def isGradient : LimOp → Bool
   | .gradientSweep _ => true
   | _ => false
 
+/-! ### classification of the data members (generated table `Gen.RestartSchemas.members`) -/
+
+inductive MKind where
+  | stored          -- written by write_restart_file, assigned from the reader
+  | storedVia       -- written through an expression of the member, re-created from it
+  | storedDerived   -- array: some elements written, the others assigned an expression of written ones
+  | derived         -- the restart constructor assigns an expression of stored members / a literal
+  | transient       -- fixed value at every dump point / set before every use
+  | rebuilt         -- built from the stored parameter file / the command line by the same code on both paths
+  | excluded        -- excluded by the property statement (wall-clock, re-seeded photon stream) or pure diagnostics
+  | alias           -- other name of stored members
+  | unclassified    -- may be lost by a restart
+deriving DecidableEq, Repr
+
+structure Member where
+  cls : String
+  name : String
+  kind : MKind
+deriving DecidableEq, Repr
+
+/-- the restart file determines the member -/
+def MKind.fromDump : MKind → Bool
+  | .stored | .storedVia | .storedDerived | .alias => true
+  | _ => false
+
+/-- the restart constructor / the common construction code gives the member a fixed value -/
+def MKind.fixed : MKind → Bool
+  | .transient | .rebuilt => true
+  | _ => false
+
+/-- the restart claims to reproduce the member -/
+def MKind.claimed : MKind → Bool
+  | .excluded | .unclassified => false
+  | _ => true
+
+/-- a process state = value of every member (members are numbered by their position in the table) -/
+abbrev MState (α : Type) := Nat → α
+
+/-- what is in the dump: the members the file determines (everything else blanked) -/
+def dumpView {α : Type} (kind : Nat → MKind) (blank : α) (s : MState α) : MState α :=
+  fun m => if (kind m).fromDump then s m else blank
+
+/-- the state the restart path builds from a dump: stored members from the file, derived ones by their
+expression `D m` of the dump, all others the value `T0 m` the constructors give them -/
+def restoreView {α : Type} (kind : Nat → MKind) (D : Nat → MState α → α) (T0 : MState α) (dump : MState α) : MState α :=
+  fun m => match kind m with
+    | .derived => D m dump
+    | k => if k.fromDump then dump m else T0 m
+
 /-! ### abstract stop / restart model -/
 
 /-- state of a run = what is in the dump, what a constructor derives from it, what is neither -/
